@@ -144,9 +144,19 @@ def tree_hash(repo, extra=()):
     return h.hexdigest()[:24]
 
 
-def _prune_cache(keep=8):
+def _prune_cache(keep=24):
+    import time
     try:
-        ents = sorted((os.path.getmtime(os.path.join(CACHE_DIR, e)), e) for e in os.listdir(CACHE_DIR))
+        ents = []
+        for e in os.listdir(CACHE_DIR):
+            p = os.path.join(CACHE_DIR, e)
+            if e.startswith("build-"):
+                # unfinished build of a crashed run: remove once clearly stale
+                if time.time() - os.path.getmtime(p) > 3600:
+                    shutil.rmtree(p, ignore_errors=True)
+                continue
+            ents.append((os.path.getmtime(p), e))
+        ents.sort()
     except OSError:
         return
     for _, e in ents[:-keep]:
